@@ -218,6 +218,55 @@ class reorder_coverage_mismatched_parallel_raises:
     native = False
 
 
+_COVT = Obj(glyphs=SeqOf(Str))
+
+
+def _each_cov(value, f):
+    return all(f(k, value.InputCoverage[k].glyphs) for k in range(len(value.InputCoverage)))
+
+
+@contract("nanoemoji.reorder_glyphs.ReorderCoverage.apply", props=["C11"])
+class reorder_coverage_list_any_length:
+    """A subtable with a LIST of coverage tables (contextual formats 3): every one of them is
+    sorted on its own.  The number of tables is finite (0..2), each table has any length."""
+
+    scope = "finite: 0..2 coverage tables in the list; each table of any length"
+    args = {
+        "self": Record("nanoemoji.reorder_glyphs.ReorderCoverage", parallel_list_attr=Const(None), coverage_attr=Const("InputCoverage")),
+        "font": Obj(getGlyphID=_GID),
+        "value": OneOf(Obj(InputCoverage=ListOf()), Obj(InputCoverage=ListOf(_COVT)), Obj(InputCoverage=ListOf(_COVT, _COVT))),
+    }
+    assumes = ["builtin sorted(): as for sort_by_gid_paired_any_length"]
+    ensures = {
+        "tables-kept": lambda value, old: len(value.InputCoverage) == len(old.value.InputCoverage),
+        "each-sorted-by-glyph-id": lambda value: _each_cov(value, lambda k, g: forall(0, len(g) - 1, lambda i: _gid(g[i]) <= _gid(g[i + 1]))),
+        "each-keeps-its-own-glyphs": lambda value, old, calls: _each_cov(
+            value,
+            lambda k, g: len(g) == len(old.value.InputCoverage[k].glyphs)
+            and forall(0, len(g), lambda i: g[i] == old.value.InputCoverage[k].glyphs[calls["builtins.sorted"][k].perm(i)])
+            and forall(
+                0,
+                len(g),
+                lambda j: g[calls["builtins.sorted"][k].inv(j)] == old.value.InputCoverage[k].glyphs[j]
+                and 0 <= calls["builtins.sorted"][k].inv(j)
+                and calls["builtins.sorted"][k].inv(j) < len(g),
+            ),
+        ),
+    }
+    native = False
+
+
+@contract("nanoemoji.reorder_glyphs.ReorderCoverage.apply", props=["C11"])
+class reorder_coverage_list_with_parallel_rejected:
+    args = {
+        "self": Record("nanoemoji.reorder_glyphs.ReorderCoverage", parallel_list_attr=Const("PairSet"), coverage_attr=Const("InputCoverage")),
+        "font": Obj(getGlyphID=_GID),
+        "value": Obj(InputCoverage=ListOf(_COVT), PairSet=SeqOf(Int)),
+    }
+    raises = {"AssertionError": lambda value: True}
+    native = False
+
+
 @contract("nanoemoji.reorder_glyphs._sort_by_gid", props=["C11"])
 class sort_by_gid_native_crosscheck:
     """bounded: the real _sort_by_gid and ReorderList.apply under CPython on lists of 0..64
